@@ -3,7 +3,7 @@
 prop=$1; patch=$2; tier=${3:-quick}
 cd /verif
 git -C /repo diff --quiet || { echo "/repo is dirty"; exit 9; }
-git -C /repo apply $patch || exit 8
+git -C /repo apply $(realpath $patch) || exit 8
 ./check $prop --tier $tier; rc=$?
 git -C /repo checkout -- .
 echo "check exit=$rc"
